@@ -1760,8 +1760,23 @@ class VM:
         result = self._execute()
         return result
 
+    def _regex_poll(self):
+        """Deadline poll for the regex engine, bound to this (running) interpreter."""
+        if self.time_limit is None:
+            return None
+        return lambda: time.monotonic() - self.start_time > self.time_limit
+
+    def _arm_regex(self, regex: JSRegExp) -> None:
+        """Point a RegExp at the deadline of the evaluation that is using it.
+
+        A regex object outlives the eval that created it; polling the creator's
+        clock would stop a later evaluation early (or never).
+        """
+        regex._internal._poll_callback = self._regex_poll()
+
     def _make_regexp_method(self, re: JSRegExp, method: str) -> Any:
         """Create a bound RegExp method."""
+        self._arm_regex(re)
 
         def test_fn(*args):
             string = to_string(args[0]) if args else ""
@@ -2006,6 +2021,7 @@ class VM:
             elif isinstance(sep, JSRegExp):
                 # Split with regex using microjs.regex
                 try:
+                    self._arm_regex(sep)
                     regex_internal = sep._internal
                     parts = []
                     last_end = 0
@@ -2142,6 +2158,7 @@ class VM:
                 replacement = to_string(replace_value)
                 # Replace with regex using microjs.regex
                 try:
+                    self._arm_regex(pattern)
                     regex_internal = pattern._internal
                     is_global = "g" in pattern._flags
                     capture_count = regex_internal._capture_count
@@ -2222,6 +2239,7 @@ class VM:
             from .regex import RegExp as InternalRegExp
 
             if isinstance(pattern, JSRegExp):
+                self._arm_regex(pattern)
                 regex_internal = pattern._internal
                 is_global = "g" in pattern._flags
             else:
@@ -2290,6 +2308,7 @@ class VM:
             from .regex import RegExp as InternalRegExp
 
             if isinstance(pattern, JSRegExp):
+                self._arm_regex(pattern)
                 regex_internal = pattern._internal
             else:
                 # Convert string to regex using microjs.regex
